@@ -536,8 +536,21 @@ def run(ctx):
     reg = arm("Blkw")
     ctx.instance(1)
     em = emis.emissions(prog, pp, reg)
+    def count_payload(e):
+        """the literal as a count: a hex payload as it is; a decimal (i16) payload reinterpreted as u16 first - iterating `0..lit` over
+        the signed value yields nothing for #32768 and above, which the lexer delivers as negative numbers"""
+        if not lit_payload(e):
+            return False
+        inner, first_cast = e, None
+        while inner[0] == "cast":
+            first_cast = (inner[1], inner[2])
+            inner = inner[3]
+        if "Dec" in expr_str(inner, 200):
+            return first_cast == ("i16", "u16")
+        return True
+
     def count_ok(m):
-        return isinstance(m, tuple) and m[0] in ("range", "repeat") and emis.all_defs_satisfy(pp, m[1], lit_payload)
+        return isinstance(m, tuple) and m[0] in ("range", "repeat") and emis.all_defs_satisfy(pp, m[1], count_payload)
     ok = bool(em) and all(x["kind"] == "zero" and count_ok(x["mult"]) for x in em) and one_per_path(reg, [unit(x) for x in em])
     ctx.oblig(ok, {".blkw": [(x["kind"], (x["mult"][0], expr_str(x["mult"][1], 50)) if isinstance(x["mult"], tuple) and len(x["mult"]) > 1 else x["mult"]) for x in em]}, "n zero words, n the literal")
     if not ok:
